@@ -89,6 +89,14 @@ class OdmlType(Enum):
         raise TypeError("No available OdmlType for type '%s'" % dtype)
 
 
+def _check_text_storable(values):
+    # HDF5 variable-length strings end at the first NUL character: a text that
+    # contains one cannot be stored and read back unchanged
+    for val in values:
+        if "\x00" in val:
+            raise ValueError("Text values must not contain NUL characters")
+
+
 class Property(Entity):
     """An odML Property"""
     def __init__(self, nixfile, nixparent, h5dataset):
@@ -291,6 +299,8 @@ class Property(Entity):
         vtype = self._check_new_value_types(vals)
         if vtype == DataType.String:
             vals = [ensure_text(v) for v in vals]  # py2compat
+            # refuse before resizing, not after (when h5py finds out)
+            _check_text_storable(vals)
         # convert before resizing: a value that cannot be converted (e.g. an
         # integer outside int64) must not truncate or pad the stored values
         data = np.array(vals, dtype=vtype)
@@ -310,6 +320,9 @@ class Property(Entity):
             # values setter does: numpy converts a bare numpy integer outside
             # int64 by wrapping it around instead of raising OverflowError
             data = [data]
+        if vtype == DataType.String:
+            # refuse before resizing, not after (when h5py finds out)
+            _check_text_storable(data)
 
         arr = np.array(data, dtype=vtype).flatten('C')
         dataset = self._h5dataset
